@@ -24,6 +24,8 @@ NONE = lambda: EnumV("Option", 0, [])
 
 class SliceV:
     """a sub-slice view &[T] of a list"""
+    ref_like = True
+
     def __init__(self, base, lo, hi):
         self.base = base; self.lo = lo; self.hi = hi
 
